@@ -71,7 +71,12 @@ const HAVINGS: &[&str] = &["COUNT(*) > 0", "COUNT(*) >= 1", "COUNT(*) > 1", "SUM
 /// members differing in one column, only by NULL, by -0.0/0.0/nan
 fn gen_dup_lines(rng: &mut Rng) -> Vec<String> {
     let base_k = *rng.pick(&["a", "b", "ab"]);
-    let base_v = rng.range(-2, 4).to_string();
+    // neighbours that differ only in the low bits of a large magnitude: distinct tuples that any lossy normalisation of
+    // the DISTINCT key (e.g. through f64, f32, i32) would merge
+    const BIG: &[i64] = &[9007199254740992, 9007199254740993, 9007199254740994, 4611686018427387904, 4611686018427387905,
+        9223372036854775807, 9223372036854775806, -9223372036854775808, -9223372036854775807, 4294967296, 4294967297, 16777216, 16777217];
+    let big = rng.chance(1, 4);
+    let base_v = if big { rng.pick(BIG).to_string() } else { rng.range(-2, 4).to_string() };
     let base_w = rng.range(0, 3).to_string();
     let base_r = *rng.pick(&["0", "-0.0", "0.0", "1.5", "nan", "-nan", "inf"]);
     let base_s = *rng.pick(&["x", "y", "10"]);
@@ -82,9 +87,9 @@ fn gen_dup_lines(rng: &mut Rng) -> Vec<String> {
         let (mut k, mut v, mut w, mut r, mut s) = (base_k.to_owned(), base_v.clone(), base_w.clone(), base_r.to_owned(), base_s.to_owned());
         match rng.below(9) {
             0 => k = (*rng.pick(&["a", "b", "z"])).to_owned(),
-            1 => v = rng.range(-2, 4).to_string(),
+            1 => v = if big { rng.pick(BIG).to_string() } else { rng.range(-2, 4).to_string() },
             2 => w = rng.range(0, 3).to_string(),
-            3 => r = (*rng.pick(&["0", "-0.0", "0.0", "-0", "1.5", "nan", "1.50", "15e-1"])).to_owned(),
+            3 => r = (*rng.pick(&["0", "-0.0", "0.0", "-0", "1.5", "nan", "1.50", "15e-1", "1.5000000000000002", "9007199254740993", "9007199254740992", "1e-320", "0.1", "0.10000000000000002"])).to_owned(),
             4 => s = (*rng.pick(&["x", "y", "X"])).to_owned(),
             5 => k = String::new(),
             6 => v = String::new(),
